@@ -1,3 +1,4 @@
+import FancyModel.Spec.Stage
 import FancyModel.Model.Regex
 import FancyModel.Model.Chars
 import FancyModel.Spec.Domain
@@ -136,7 +137,12 @@ def doPat (sp : List Char) (fields : List String) : Cur × String :=
           let kind := match b.kind with | .wrap => "wrap" | .fancy _ => "fancy"
           -- the decidable side conditions of the proved compiler-correctness theorem (`C01_vm_correct_s2`)
           let s2 := match b.kind with | .wrap => false | .fancy prog => s2ok b.raw && noDeleg prog.body
-          s!"{kind} {b.nGroups} ws={b01 (wellShaped b.raw)} closed={b01 (closed b.raw)} nel={b01 (noEmptyLoop b.raw)} ncl={b01 (noCondLeak b.raw)} mod={b01 modelled} s2={b01 s2}"
+          -- … and of the theorem with delegation (`C01_vm_correct_s3`, Proofs/C01d.lean: `s3Stage`)
+          let s3 := match b.kind with
+            | .wrap => false
+            | .fancy prog => s3ok (fun g => backrefs.contains g) b.raw true && wellShaped b.raw && noBareEndZ b.raw &&
+                progDelegOK prog.nSaves prog.body
+          s!"{kind} {b.nGroups} ws={b01 (wellShaped b.raw)} closed={b01 (closed b.raw)} nel={b01 (noEmptyLoop b.raw)} ncl={b01 (noCondLeak b.raw)} mod={b01 modelled} s2={b01 s2} s3={b01 s3}"
       (cur, ans)
     | _ => (default, "bad-tree")
   | _ => (default, "bad-op")
